@@ -23,6 +23,28 @@ theorem occ_get_exact (bwt : List Nat) (k r c : Nat) (hk : 0 < k) (hr : r < bwt.
 example : (List.range 6).map (fun r => occGet (occNewLoop [1, 3, 3, 1, 2, 0] 3 3) [1, 3, 3, 1, 2, 0] 3 r 3)
     = [0, 1, 2, 2, 2, 2] := by decide
 
+/-- **role of the source-extracted threshold** (`Gen.Occ.hiCheckpointThreshold`, the literal of `if self.k > 64` in
+`Occ::get`, regenerated from `bwt.rs` on every run): at sampling rates up to the threshold the model — like the code —
+answers with the forward count from the low checkpoint alone; only above it the next checkpoint is looked at.
+`occ_get_exact` above holds whatever the extracted value is, so a retuned threshold is followed silently. -/
+theorem occ_get_forward_up_to_threshold (cp bwt : List Nat) (k r c : Nat) (hk : k ≤ Gen.Occ.hiCheckpointThreshold) :
+    occGet cp bwt k r c = cnt bwt (r / k * k + 1) r c + cp.getD (r / k) 0 ∧ occBranch cp k r = "forward" := by
+  have h : ¬ (k > Gen.Occ.hiCheckpointThreshold) := Nat.not_lt.mpr hk
+  constructor
+  · unfold occGet; simp only [h, if_false]
+  · unfold occBranch; simp only [h, if_false]
+
+/-- non-vacuity on the other side of the threshold (k = threshold + 1, text of length 2k, two checkpoints; the rows are
+chosen relative to k so that the example survives a retuned threshold ≥ 3): backward count from the high checkpoint
+(row k−1), early exit on equal checkpoints (absent symbol 3), forward count in the last block (row k+5) -/
+example :
+    let k := Gen.Occ.hiCheckpointThreshold + 1
+    let bwt := List.replicate (k - 2) 1 ++ List.replicate (k + 2) 2
+    occBranch (occNewLoop bwt k 2) k (k - 1) = "backward" ∧ occGet (occNewLoop bwt k 2) bwt k (k - 1) 2 = 2 ∧
+    occBranch (occNewLoop bwt k 3) k (k - 1) = "early-exit" ∧ occGet (occNewLoop bwt k 3) bwt k (k - 1) 3 = 0 ∧
+    occBranch (occNewLoop bwt k 2) k (k + 5) = "forward-last" ∧ occGet (occNewLoop bwt k 2) bwt k (k + 5) 2 = 8 := by
+  decide +kernel
+
 /-- the incremental loop of `Occ::new` (running counter, push when `i % k == 0`) produces the checkpoint
 table "entry i = occRef bwt (i·k) c for every i with i·k < n" -/
 theorem occ_new_loop_table (bwt : List Nat) (k c : Nat) (hk : 0 < k) :
@@ -80,7 +102,7 @@ theorem lf_mapping (t sa : List Nat)
     (r : Nat) (hr : r < t.length) :
     lessRef (bwtRef t sa) ((bwtRef t sa).getD r 0) + occRef (bwtRef t sa) r ((bwtRef t sa).getD r 0) - 1 =
       sa.idxOf ((sa.getD r 0 + t.length - 1) % t.length) :=
-  LF.lf_mapping t sa ⟨hperm, hsorted, hhead⟩ ⟨hpos, hmin, huniq⟩ r hr
+  LFMap.lf_mapping t sa ⟨hperm, hsorted, hhead⟩ ⟨hpos, hmin, huniq⟩ r hr
 
 /-- **`invert_bwt(bwt(t)) = t`**: the mirror model of `bwtfind` + `invert_bwt` (less array of size `m`, slots
 `less[c]++`, `r = bwtfind[r]; push bwt[r]`) reproduces every text whose last symbol is its unique smallest symbol
